@@ -470,7 +470,29 @@ pub fn check(_ctx: &Ctx, c: &Num, acc: &mut Acc) -> Result<(), Fail> {
                 (Err(_), None) => {}
                 _ => fail!("c05-observe", "observe value {n}: got {got:?}, expected {want:?}"),
             }
-            if n <= 3 {
+            // the same number -> name table as the request API reads it
+            // (CoapRequest::get_observe_flag), from the minimal encoding and
+            // from a three-byte one with leading zeros
+            for pad in [false, true] {
+                let mut bytes = crate::props::c01::min_uint(n as u64);
+                if pad {
+                    while bytes.len() < 3 {
+                        bytes.insert(0, 0);
+                    }
+                }
+                let mut req: CoapRequest<u8> = CoapRequest::new();
+                req.message.add_option(CoapOption::Observe, bytes.clone());
+                let flag = match catch(|| req.get_observe_flag()) {
+                    Ok(f) => f,
+                    Err(msg) => fail!("c05-observe", "get_observe_flag panicked on Observe value {n}: {msg}"),
+                };
+                match (&flag, &want) {
+                    (Some(Ok(g)), Some(w)) => ensure!(g == w, "c05-observe-request-api", "Observe {n} ({bytes:02x?}) reads as {g:?} through get_observe_flag, RFC 7641 says {w:?}"),
+                    (Some(Err(_)), None) => {}
+                    _ => fail!("c05-observe-request-api", "Observe {n} ({bytes:02x?}): get_observe_flag() = {flag:?}, expected {want:?} (unassigned values are invalid)"),
+                }
+            }
+            if n <= 3 || n % 256 <= 1 {
                 acc.nontrivial_enum();
                 acc.sample("observe", || json!({"value": n, "result": format!("{got:?}")}));
             }
